@@ -483,6 +483,15 @@ class Engine:
         out = []
         for op, rn in zip(node.ops, node.comparators):
             right = self.ev(rn, st, guard)
+            if isinstance(op, (ast.In, ast.NotIn)) and isinstance(right, Ref) and len(node.ops) == 1:
+                ho = st.heap[right.base]
+                if ho.kind == "pairset" and isinstance(left, tuple) and len(left) == 2:
+                    m = self.sel(st, right, [to_z3(left[0]), to_z3(left[1])])
+                elif self.is_set(st, right) and not isinstance(left, (tuple, Ref, PyObj)):
+                    m = self.sel(st, right, [to_z3(left)])
+                else:
+                    raise Unsupported("membership test of this shape")
+                return m if isinstance(op, ast.In) else z3.Not(m)
             if (isinstance(left, Vec) or isinstance(right, Vec) or
                     (isinstance(left, Ref) and self.ref_ndim(st, left) == 1 and self.spec_depth == 0) or
                     (isinstance(right, Ref) and self.ref_ndim(st, right) == 1 and self.spec_depth == 0)) \
@@ -674,6 +683,20 @@ class Engine:
             raise ContractError("forall/exists need a lambda")
         names = [a.arg for a in lam.args.args]
         bounds = [self.ev(a, st, guard) for a in node.args[1:]]
+        if not bounds:
+            # unbounded quantifier (over all integers: used for set members)
+            if self.small_scope is not None or self.concrete:
+                raise Unsupported("unbounded quantifier in bounded mode")
+            bvs = [z3.Int("%s!q%d" % (n_, next(_fresh))) for n_ in names]
+            st2 = st.fork()
+            for n_, bv in zip(names, bvs):
+                st2.env[n_] = bv
+            self.spec_depth += 1
+            try:
+                body = to_bool(self.ev(lam.body, st2, guard))
+            finally:
+                self.spec_depth -= 1
+            return z3.ForAll(bvs, body) if which == "forall" else z3.Exists(bvs, body)
         if len(bounds) != 2 * len(names) and not (len(bounds) == 2 and len(names) >= 1):
             raise ContractError("forall(lambda i[, j]: body, lo, hi[, lo2, hi2])")
         if len(bounds) == 2 and len(names) > 1:
@@ -1049,7 +1072,12 @@ class Engine:
                 continue
             seen.add(v.base)
             ho = st.heap[v.base]
-            st.heap[v.base] = ho.replace(arr=fresh("%s@%s" % (v.base, tag), arr_sort(ho.elem, ho.ndim)))
+            shape = ho.shape
+            if ho.kind in ("list", "setlist"):
+                n_ = fresh("%s.len@%s" % (v.base, tag), I)
+                st.pc.append(n_ >= 0)
+                shape = (n_,) + tuple(ho.shape[1:])
+            st.heap[v.base] = ho.replace(arr=fresh("%s@%s" % (v.base, tag), arr_sort(ho.elem, ho.ndim)), shape=shape)
 
     def loop_spec(self, node):
         k = self.loop_ord[id(node)]
@@ -1102,10 +1130,19 @@ class Engine:
                 return out
         raise Unsupported("concrete loop did not finish")
 
-    def cut_loop(self, s, st, k, spec, cond, body, step, hidden, auto=None):
+    def cut_loop(self, s, st, k, spec, cond, body, step, hidden, auto=None, exit_cond=None, extra_bases=()):
         """Standard invariant cut.  hidden: env additions visible to invariants (e.g. the for-loop counter)."""
         fn = self.fn_key.split("::")[-1]
         tag = "L%d" % k
+        # ghost snapshots taken at loop entry (visible to the invariants of this loop)
+        for sname, ssrc in (spec.get("snap") or {}).items():
+            v = self.evc(ssrc, st)
+            if isinstance(v, Ref):
+                ho = st.heap[v.base]
+                st.env[sname] = self.new_array(st, "snap_" + sname, ho.elem, ho.ndim - len(v.prefix),
+                                               shape=ho.shape[len(v.prefix):], arr=self.sel(st, v), kind=ho.kind)
+            else:
+                st.env[sname] = v
         # 1. establishment
         for name, src, t in self.inv_terms(spec, st, auto=auto):
             self.emit("%s.loop%d.inv.%s.establish" % (fn, k, name), "invariant-establish", st, t, s.lineno, note=src)
@@ -1113,6 +1150,7 @@ class Engine:
         names, bases = self.modified_in(body, st)
         for h in hidden:
             names.add(h)
+        bases |= set(extra_bases)
         head = st.fork()
         self.havoc(head, names, bases, tag)
         for name, src, t in self.inv_terms(spec, head, auto=auto):
@@ -1143,7 +1181,7 @@ class Engine:
                 out.append((kind, s2, val))
         # 4. exit
         ex = head.fork()
-        ex.pc.append(z3.Not(cond(ex)))
+        ex.pc.append(exit_cond(ex) if exit_cond is not None else z3.Not(cond(ex)))
         out.append(("normal", ex, None))
         for hsrc in (getattr(self.contract, "exit_hints", None) or {}).get(k, []):
             for kind, s2, val in out:
@@ -1187,7 +1225,56 @@ class Engine:
                     cur = nxt
                 out.extend(("normal", c, None) for c in cur)
                 return out
+        if isinstance(s.target, ast.Name) and not self.concrete:
+            seq = self.ev(it, st)
+            if isinstance(seq, Ref) and self.is_set(st, seq):
+                return self.for_set(s, st, seq)
         raise Unsupported("for over %s at line %s" % (ast.dump(it)[:40], s.lineno))
+
+    def is_set(self, st, ref):
+        ho = st.heap[ref.base]
+        return (ho.kind == "set" and not ref.prefix) or (ho.kind == "setlist" and len(ref.prefix) == 1)
+
+    def for_set(self, s, st, seq):
+        """iteration over a set in an arbitrary order; the ghost set seen_<var> holds the elements already visited"""
+        k, spec = self.loop_spec(s)
+        if spec is None:
+            raise ContractError("for loop #%d (line %d) over a set has no invariant in the sidecar" % (k, s.lineno))
+        v = s.target.id
+        gname = "seen_" + v
+        empty = z3.K(I, z3.BoolVal(False))
+        st.env[gname] = self.new_array(st, gname, "bool", 1, arr=empty, kind="set")
+        gbase = st.env[gname].base
+        seq_prefix, seq_base = seq.prefix, seq.base
+
+        def members(stt):
+            return self.sel(stt, Ref(seq_base, seq_prefix))
+
+        def cond(stt):
+            # an unvisited member remains: the loop variable is bound to an arbitrary such member
+            x = fresh(v, I)
+            stt.env[v] = x
+            stt.pc.append(z3.Select(members(stt), x))
+            stt.pc.append(z3.Not(z3.Select(stt.heap[gbase].arr, x)))
+            return z3.BoolVal(True)
+
+        def exit_cond(stt):
+            j = z3.Int("sj!%d" % next(_fresh))
+            return z3.ForAll([j], z3.Implies(z3.Select(members(stt), j), z3.Select(stt.heap[gbase].arr, j)))
+
+        def step(stt):
+            ho = stt.heap[gbase]
+            stt.heap[gbase] = ho.replace(arr=z3.Store(ho.arr, to_z3(stt.env[v]), z3.BoolVal(True)))
+
+        def auto(stt):
+            j = z3.Int("sj!%d" % next(_fresh))
+            return z3.ForAll([j], z3.Implies(z3.Select(stt.heap[gbase].arr, j), z3.Select(members(stt), j)))
+        res = self.cut_loop(s, st, k, spec, cond=cond, body=s.body, step=step, hidden={},
+                            auto=("seen_subset", "seen ⊆ set", auto), exit_cond=exit_cond, extra_bases={gname})
+        for kind, s2, val in res:
+            if kind == "normal":
+                s2.env[v] = PyObj("undefined")
+        return res
 
     def for_range(self, s, st):
         if not isinstance(s.target, ast.Name):
@@ -1252,7 +1339,8 @@ class Engine:
         c = self.contract
         st = State()
         params = [a.arg for a in self.fndef.args.args]
-        if params != c.param_names:
+        frag = getattr(c, "fragment", None)
+        if frag is None and params != c.param_names:
             raise ContractError("parameter list changed: code %s, contract %s" % (params, c.param_names))
         inputs = {}
         for p in list(c.params) + list(c.ghost):
@@ -1263,7 +1351,7 @@ class Engine:
             if p in (c.fixed or {}):
                 st.env[p] = c.fixed[p]
                 continue
-            if ty.kind in ("arr", "list"):
+            if ty.kind in ("arr", "list", "set", "setlist", "pairset"):
                 ref = self.new_array(st, "in_" + p, ty.elem, ty.ndim, kind=ty.kind)
                 st.env[p] = ref
                 inputs[p] = ("arr", ref.base, ty)
@@ -1296,7 +1384,13 @@ class Engine:
             st.pc.append(to_bool(self.evc(hsrc, st)))
         entry = State(dict(st.env), dict(st.heap), list(st.pc), None)
         st.old = entry
-        outcomes = self.run_block(self.fndef.body, st)
+        body = self.fndef.body
+        if frag is not None:
+            loops = [n for n in body if isinstance(n, (ast.While, ast.For))]
+            if frag["loop"] > len(loops):
+                raise ContractError("fragment: the function has no top-level loop #%d" % frag["loop"])
+            body = [loops[frag["loop"] - 1]]
+        outcomes = self.run_block(body, st)
         fn = self.fn_key.split("::")[-1]
         nret = 0
         for kind, s2, val in outcomes:
